@@ -359,6 +359,93 @@ def degree(t, xs, ys, depth=0):
     return None
 
 
+def machine_new_table(prop, repo, R, b):
+    from core.bytex import Machine, T, Adt as BAdt
+    F = repo.F
+    gfile = (b.rec.get("span") or {}).get("file")
+
+    def pol(cb):
+        if cb.rec["kind"] in ("Closure", "Ctor"):
+            return True
+        if (cb.rec.get("span") or {}).get("file") != gfile:
+            return False
+        out = cb.rec.get("output") or ""
+        ins = cb.rec.get("inputs") or []
+        # validation phases and parameter constants, not group arithmetic
+        return out.strip() in ("bool", "()") or out.startswith("core::result::Result") or out.startswith("core::option::Option") or (not ins and len(cb.blocks) <= 1) \
+            or (cb.impl_trait == "core::convert::From")
+
+    def tname(t):
+        return t[1].split("::")[-1] if isinstance(t, T) and t[0] == "call" else None
+
+    def has_xy(t):
+        if t in (T("x"), T("y")):
+            return True
+        if isinstance(t, BAdt):
+            return any(has_xy(f) for f in t.fields)
+        if isinstance(t, tuple):
+            return any(has_xy(u) for u in t if isinstance(u, (tuple, BAdt)))
+        return False
+
+    def deg(t):
+        if not has_xy(t):
+            return (0, 0, True)           # a constant of the curve (however it is spelled)
+        if t == T("x"):
+            return (1, 0, False)
+        if t == T("y"):
+            return (0, 1, False)
+        nm = tname(t)
+        if nm == "squared" and len(t[3]) == 1:
+            d = deg(t[3][0])
+            return None if d is None else (2 * d[0], 2 * d[1], d[2])
+        if nm in ("mul", "add") and len(t[3]) == 2:
+            d1, d2 = deg(t[3][0]), deg(t[3][1])
+            if d1 is None or d2 is None:
+                return None
+            return (d1[0] + d2[0], d1[1] + d2[1], d1[2] or d2[2]) if nm == "mul" else (max(d1[0], d2[0]), max(d1[1], d2[1]), d1[2] or d2[2])
+        if nm in ("coeff_b", "b") and not t[3]:
+            return (0, 0, True)
+        if isinstance(t, T) and t[0] == "payload":
+            return None
+        return None
+    for params, want_co in (("crate::groups::G2Params", True), ("crate::groups::G1Params", False)):
+        inst = "crate::groups::AffineG::<%s>::new" % params
+        R.instance()
+        if inst not in F.instances:
+            R.fail_closed("%s:new:truth-table:%s" % (prop, params), "instance %s not found" % inst)
+            continue
+        outs = Machine(F, pol).run(b, [T("x"), T("y")], inst=inst)
+        bad = []
+        rows = []
+        saw_ok = False
+        for o in outs:
+            if o.kind != "return" or not isinstance(o.value, BAdt):
+                bad.append("outcome %r" % (o,))
+                continue
+            curve = sub = None
+            for atom, ch in o.pc:
+                nm = tname(atom)
+                if nm in ("eq", "ne") and len(atom[3]) == 2:
+                    ds = {deg(atom[3][0]), deg(atom[3][1])}
+                    truth = bool(ch) if nm == "eq" else not bool(ch)
+                    if ds == {(0, 2, False), (3, 0, True)}:
+                        curve = truth
+                    elif any(tname(x) == "zero" for x in atom[3]):
+                        sub = truth
+                    else:
+                        bad.append("comparison of %s" % (sorted(map(str, ds)),))
+                elif nm == "is_zero" and len(atom[3]) == 1:
+                    sub = bool(ch)
+            okv = o.value.variant == "Ok"
+            rows.append({"on_curve": curve, "r·P=O": sub, "result": o.value.variant})
+            want = bool(curve) and (not want_co or bool(sub))
+            if curve is None or okv != want or (okv and want_co and sub is None):
+                bad.append(rows[-1])
+            saw_ok |= okv
+        R.check(not bad and saw_ok, "%s:new:truth-table:%s" % (prop, params), "AffineG::<%s>::new accepts / rejects against the specification: %s" % (params.split("::")[-1], bad[:3]), b.file_line(), b.rec["path"],
+                sample={"params": params, "rows": rows[:6]})
+
+
 def rules_c09(prop, repo):
     F = repo.F
     out = []
@@ -390,7 +477,9 @@ def rules_c09(prop, repo):
     ca = [a for a in cmp_atoms if is_curve(a)]
     sa = [a for a in cmp_atoms if not is_curve(a)] + zero_atoms      # the subgroup test: `X != G::zero()` or `!X.is_zero()`
     if len(ca) != 1 or len(sa) != 1 or co_atom is None or len(cmp_atoms) + len(zero_atoms) != 2:
-        R.fail_closed("%s:new:shape" % prop, "expected the curve comparison, one subgroup test (against zero) and one check_order() test, found %d / %d / %s" % (len(ca), len(sa), co_atom is not None), b.file_line())
+        # the tests are not all in this body (split into helper phases): decide the same table on the outcomes of the
+        # byte-provenance machine, per parameter set
+        machine_new_table(prop, repo, R, b)
     else:
         ca, sa = ca[0], sa[0]
 
@@ -447,12 +536,20 @@ def rules_c09(prop, repo):
     # check_order per parameter set
     for params, want in (("crate::groups::G2Params", True), ("crate::groups::G1Params", False)):
         R.instance()
-        inst = F.instances.get("crate::groups::AffineG::<%s>::new" % params)
         tgt = None
-        if inst and inst.get("expanded"):
-            for c in inst["calls"]:
-                if c.get("def", "").endswith("check_order"):
-                    tgt = c["def"]
+        todo, seen = ["crate::groups::AffineG::<%s>::new" % params], set()
+        while todo and tgt is None and len(seen) < 40:
+            iname = todo.pop(0)
+            if iname in seen:
+                continue
+            seen.add(iname)
+            inst = F.instances.get(iname)
+            if inst and inst.get("expanded"):
+                for c in inst["calls"]:
+                    if c.get("def", "").endswith("check_order"):
+                        tgt = c["def"]
+                    elif c.get("local") and "AffineG" in c.get("inst", ""):
+                        todo.append(c["inst"])
         cb = F.bodies.get(tgt) if tgt else None
         if cb is None:
             R.fail_closed("%s:check_order:%s" % (prop, params), "check_order for %s not resolved" % params)
@@ -514,6 +611,17 @@ def curve_true_blocks(repo, fb):
         if t["k"] != "switch":
             continue
         d = tb.operand(t["discr"], bi, len(fb.blocks[bi]["stmts"]))
+        # success edge of a validation phase `helper(x, y)?` (what the helper checks is decided by R-NEW-TT on the outcomes)
+        dd = d
+        if dd[0] == "discr":
+            inner = strip(dd[1])
+            if inner[0] == "call" and inner[1].name == "branch" and inner[2]:
+                inner = strip(inner[2][0])
+            if inner[0] == "call" and inner[1].d in repo.F.bodies and (repo.F.bodies[inner[1].d].rec.get("output") or "").startswith("core::result::Result<(), ") \
+                    and (repo.F.bodies[inner[1].d].rec.get("span") or {}).get("file") == (fb.rec.get("span") or {}).get("file"):
+                for v, tg in t["arms"]:
+                    if int(v) == 0:
+                        out.append(tg)
         if d[0] == "call" and d[1].name in ("eq", "ne") and degree(d[2][0], {("param", 1)}, {("param", 2)}) is not None:
             want = 0 if d[1].name == "ne" else 1
             tgt = t["otherwise"]
